@@ -554,6 +554,7 @@ def run(ctx):
                             "meta_calls", "perm_rows", "perm_skipped_tie", "nondefault_fs_or_ms")}
     inputs, outputs, descs = [], [], []
     nontrivial = set()
+    n_waveforms = 0     # evaluations are counted per waveform (a batch call evaluates each of its rows)
     samples = []
     sizes = {"T_min": 10 ** 9, "T_max": 0, "C_min": 10 ** 9, "C_max": 0, "N_max": 0}
     for bi, (batch, fs, ms) in enumerate(batches):
@@ -561,6 +562,7 @@ def run(ctx):
             continue
         res = check_batch(ctx, batch, fs, ms, stats)
         stats["nondefault_fs_or_ms"] += (fs is not None or ms is not None)
+        n_waveforms += len(batch)
         k = k_of(fs, ms)
         inputs.append(enc_inp(batch, k))
         outputs.append(enc_obs(res, fs))
@@ -589,7 +591,7 @@ def run(ctx):
              "compared with the Coq model), the property oracle, and re-runs of the real function on single rows, "
              "a scaled copy and a channel-permuted copy. non-trivial = waveform of a non-raising call with T >= 10; "
              "distinct by content hash",
-        samples=samples, evaluations=len(inputs), distinct_nontrivial=len(nontrivial),
+        samples=samples, evaluations=n_waveforms, distinct_nontrivial=len(nontrivial),
         extra={"input_distribution": dict(stats, **sizes), "exhaustive": False,
                "position_grid_T": list(range(6, 25)) if ctx.thorough() else [10, 11, 13]},
         assumptions=["float64 arithmetic on integer samples below 2^40 is exact for negation, selection and "
